@@ -97,6 +97,7 @@ type interpreter struct {
 	syncMaps           map[*value]*syncMapModel
 	globalsList        []*ssa.Global
 	onceDone           map[*value]bool
+	mapIters           map[*value]*mapIterModel
 	callStack          []*ssa.Function
 	panicStack         []*ssa.Function // call stack at the most recent panic origin
 }
